@@ -18,8 +18,12 @@
  *   quoted     `...\`...`  with one of the format's escape characters
  *   data       value;                   (dat.lay "eins;", prefix style only)
  */
+#define _GNU_SOURCE
+#include <stdio.h>
 #include <stdlib.h>
 #include <ctype.h>
+#include <unistd.h>
+#include <sys/mman.h>
 #include <sys/uio.h>
 
 #include "config.h"
@@ -108,7 +112,7 @@ void vf_case(uint64_t idx, vf_rng *r)
 		input in;
 		cmp c;
 		uint8_t *text;
-		int ret;
+		int ret, highbytes, has_fe;
 
 		memset(&ro[mode], 0, sizeof(ro[mode]));
 		ro[mode].f = f; ro[mode].mode = mode; ro[mode].r = &deco;
@@ -116,6 +120,11 @@ void vf_case(uint64_t idx, vf_rng *r)
 
 		text = vf_xalloc(ro[mode].out.n);
 		memcpy(text, ro[mode].out.d, ro[mode].out.n);
+		highbytes = has_fe = 0;
+		for (size_t i = 0; i < ro[mode].out.n; i++) {
+			if (text[i] >= 0x80) highbytes = 1;
+			if (text[i] >= 0xfe) has_fe = 1;
+		}
 		in.d = text; in.n = ro[mode].out.n; in.pos = 0; in.calls = 0;
 		ctx.src.getc = h_getc;
 		ctx.src.arg = &in;
@@ -150,6 +159,54 @@ void vf_case(uint64_t idx, vf_rng *r)
 		vf_count(mode == Canonical ? "monitor:trees-equal:canonical" : mode == Compact ? "monitor:trees-equal:compact" : "monitor:trees-equal:noisy", 1);
 		vf_at("mpt_node_clear");
 		mpt_node_clear(&target);
+
+		/* the same text through the library's own readers */
+		if (in.n && mode == (int) ((idx + 1) % 3)) {
+			MPT_STRUCT(parser_context) c2 = MPT_PARSER_INIT;
+			FILE *fp = fmemopen(text, in.n, "r");
+			if (!fp) vf_inconclusive("fmemopen of %zu bytes failed", in.n);
+			c2.src.getc = (int (*)(void *)) mpt_getchar_stdio;
+			c2.src.arg = fp;
+			if (g.sect != 0xff) { c2.name.sect = (uint16_t) g.sect; c2.name.opt = (uint16_t) g.opt; }
+			c.phase = "stdio-reader";
+			c.names = c.values = c.links = 0;
+			vf_at("mpt_getchar_stdio");
+			vf_count("mpt_parse_node", 1);
+			ret = mpt_parse_node(&target, &c2, f->str);
+			if (ret < 0) {
+				vf_fail(c09_mkkey(&c, "rejected"), "%s: read with mpt_getchar_stdio: mpt_parse_node returned %d at line %zu; text: %s",
+				        desc, ret, c2.src.line, c09_excerpt(&ro[mode].out));
+			}
+			c09_compare(&c, root, &target, target.children);
+			vf_count("monitor:trees-equal:stdio-reader", 1);
+			if (highbytes) vf_count("monitor:trees-equal:stdio-reader-with-high-bytes", 1);
+			mpt_node_clear(&target);
+			fclose(fp);
+		}
+		/* one byte per read(): one rendering per case, texts up to 3000 bytes */
+		if (in.n && in.n <= 3000 && mode == (int) (idx % 3)) {
+			MPT_STRUCT(parser_context) c3 = MPT_PARSER_INIT;
+			int fd = memfd_create("c09", 0);
+			if (fd < 0 || write(fd, text, in.n) != (ssize_t) in.n || lseek(fd, 0, SEEK_SET)) vf_inconclusive("memfd for %zu bytes failed", in.n);
+			c3.src.getc = mpt_getchar_file;
+			c3.src.arg = (void *) (intptr_t) fd;
+			if (g.sect != 0xff) { c3.name.sect = (uint16_t) g.sect; c3.name.opt = (uint16_t) g.opt; }
+			c.phase = "descriptor-reader";
+			c.names = c.values = c.links = 0;
+			vf_at("mpt_getchar_file");
+			vf_count("mpt_parse_node", 1);
+			ret = mpt_parse_node(&target, &c3, f->str);
+			if (ret < 0) {
+				vf_fail(c09_mkkey(&c, "rejected"), "%s: read with mpt_getchar_file: mpt_parse_node returned %d at line %zu; text: %s",
+				        desc, ret, c3.src.line, c09_excerpt(&ro[mode].out));
+			}
+			c09_compare(&c, root, &target, target.children);
+			vf_count("monitor:trees-equal:descriptor-reader", 1);
+			if (highbytes) vf_count("monitor:trees-equal:descriptor-reader-with-high-bytes", 1);
+			if (has_fe) vf_count("monitor:trees-equal:descriptor-reader-with-0xfe-0xff", 1);
+			mpt_node_clear(&target);
+			close(fd);
+		}
 		vf_xfree(text, in.n);
 	}
 	vf_count(f->style == StylePrefix ? "style:prefix" : f->style == StyleEnclosed ? "style:enclosed" : "style:separated", 1);
